@@ -24,6 +24,7 @@ import (
 	"bytes"
 	"encoding/hex"
 	"fmt"
+	"math/big"
 	"reflect"
 	"runtime"
 	"strings"
@@ -53,6 +54,8 @@ type freshDesc struct {
 	fields []*freshDesc // struct
 	elem   *freshDesc   // ptr / slice: a struct description
 	ty     reflect.Type
+	// omitempty: the field is tagged `,omitempty`: its zero value is not encoded
+	omitempty bool
 }
 
 var freshUniq atomic.Int64
@@ -70,7 +73,29 @@ func freshGenStruct(r *rng.R, depth int) *freshDesc {
 		if depth >= 3 && k >= 10 {
 			k = r.Intn(10)
 		}
+		if k < 10 && r.Chance(1, 3) {
+			// the leaf plans the kinds above do not reach (big integers by value and by pointer, date-times, the
+			// narrow and unsigned integer kinds): a plan closure that keeps state between calls is racy whatever
+			// the leaf type, so every leaf builder of encodeFunc / decodeFunc gets its contended cold rounds
+			k = 20 + r.Intn(8)
+		}
 		switch k {
+		case 20:
+			f.kind, f.ty = "big", reflect.TypeFor[big.Int]()
+		case 21:
+			f.kind, f.ty = "bigp", reflect.TypeFor[*big.Int]()
+		case 22:
+			f.kind, f.ty = "time", reflect.TypeFor[time.Time]()
+		case 23:
+			f.kind, f.ty = "u8", reflect.TypeFor[uint8]()
+		case 24:
+			f.kind, f.ty = "u16", reflect.TypeFor[uint16]()
+		case 25:
+			f.kind, f.ty = "u32", reflect.TypeFor[uint32]()
+		case 26:
+			f.kind, f.ty = "i8", reflect.TypeFor[int8]()
+		case 27:
+			f.kind, f.ty = "i16", reflect.TypeFor[int16]()
 		case 0:
 			f.kind, f.ty = "i32", reflect.TypeFor[int32]()
 		case 1:
@@ -102,11 +127,25 @@ func freshGenStruct(r *rng.R, depth int) *freshDesc {
 			s := freshGenStruct(r, depth+1)
 			f.kind, f.elem, f.ty = "slice", s, reflect.SliceOf(s.ty)
 		}
+		// the field wrappers of buildStructEncodeFunc / buidStructDecodeFunc: omitempty on scalar kinds (a zero value
+		// is then absent from the encoding and decodes to zero), a version range (no version is set on these
+		// encoders, so the field is always present: the wrapper closure runs, the result is unchanged)
+		opts := ""
+		switch f.kind {
+		case "i32", "i64", "bool", "str", "dur", "enum", "mask", "u8", "u16", "u32", "i8", "i16":
+			if r.Chance(1, 4) {
+				f.omitempty = true
+				opts += ",omitempty"
+			}
+		}
+		if r.Chance(1, 5) {
+			opts += []string{",version=v1.1..", ",version=..v9.9", ",version=v1.0..v9.9"}[r.Intn(3)]
+		}
 		d.fields = append(d.fields, f)
 		sf = append(sf, reflect.StructField{
 			Name: fmt.Sprintf("F%dx%d", uniq, i),
 			Type: f.ty,
-			Tag:  reflect.StructTag(fmt.Sprintf(`ttlv:"0x%06X"`, f.tag)),
+			Tag:  reflect.StructTag(fmt.Sprintf(`ttlv:"0x%06X%s"`, f.tag, opts)),
 		})
 	}
 	d.ty = reflect.StructOf(sf)
@@ -115,7 +154,59 @@ func freshGenStruct(r *rng.R, depth int) *freshDesc {
 
 // freshValue fills v (of type d.ty) and returns the items it is encoded to under tag d.tag.
 func freshValue(r *rng.R, d *freshDesc, tag int, v reflect.Value) []*tree.Item {
+	its := freshValue1(r, d, tag, v)
+	if d.omitempty && v.IsZero() {
+		return nil
+	}
+	return its
+}
+
+func freshBig(r *rng.R) *big.Int {
+	b := new(big.Int).SetBytes(r.Bytes(1 + r.Intn(40)))
+	if b.Sign() == 0 {
+		b.SetInt64(1)
+	}
+	if r.Chance(1, 4) {
+		b.Neg(b)
+	}
+	return b
+}
+
+func freshValue1(r *rng.R, d *freshDesc, tag int, v reflect.Value) []*tree.Item {
 	switch d.kind {
+	case "big":
+		b := freshBig(r)
+		v.Set(reflect.ValueOf(*b))
+		return []*tree.Item{{Kind: tree.KBig, Tag: tag, Big: new(big.Int).Set(b)}}
+	case "bigp":
+		if r.Chance(1, 5) {
+			return nil
+		}
+		b := freshBig(r)
+		v.Set(reflect.ValueOf(b))
+		return []*tree.Item{{Kind: tree.KBig, Tag: tag, Big: new(big.Int).Set(b)}}
+	case "time":
+		s := int64(r.Intn(1<<31)) + 1
+		v.Set(reflect.ValueOf(time.Unix(s, 0)))
+		return []*tree.Item{{Kind: tree.KDate, Tag: tag, Int: s}}
+	case "u8", "u16":
+		x := uint64(r.Intn(1 << 8))
+		if d.kind == "u16" {
+			x = uint64(r.Intn(1 << 16))
+		}
+		v.SetUint(x)
+		return []*tree.Item{{Kind: tree.KInt, Tag: tag, Int: int64(x)}}
+	case "u32":
+		x := uint64(uint32(r.U64()))
+		v.SetUint(x)
+		return []*tree.Item{{Kind: tree.KLong, Tag: tag, Int: int64(x)}}
+	case "i8", "i16":
+		x := int64(int8(r.U64()))
+		if d.kind == "i16" {
+			x = int64(int16(r.U64()))
+		}
+		v.SetInt(x)
+		return []*tree.Item{{Kind: tree.KInt, Tag: tag, Int: x}}
 	case "i32":
 		x := int64(int32(r.U64()))
 		v.SetInt(x)
@@ -452,7 +543,33 @@ func literalMessages() []any {
 					KeyValue: &kmip.KeyValue{Plain: &kmip.PlainKeyValue{KeyMaterial: kmip.KeyMaterial{Bytes: &material}}}}}}}),
 		resp(v(1, 1), kmip.ResponseBatchItem{Operation: kmip.OperationDestroy, ResultStatus: kmip.ResultStatusOperationFailed,
 			ResultReason: kmip.ResultReasonItemNotFound, ResultMessage: "no such object"}),
+		// big integers by value (Modulus, PublicExponent, D) and by pointer (the private RSA numbers), a negative
+		// one among them, in two batch items: the big-integer plans and writers under first-call contention
+		resp(v(1, 2),
+			kmip.ResponseBatchItem{Operation: kmip.OperationGet, ResultStatus: kmip.ResultStatusSuccess,
+				ResponsePayload: &payloads.GetResponsePayload{ObjectType: kmip.ObjectTypePublicKey, UniqueIdentifier: "id-3",
+					Object: &kmip.PublicKey{KeyBlock: kmip.KeyBlock{KeyFormatType: kmip.KeyFormatTypeTransparentRSAPublicKey, CryptographicAlgorithm: kmip.CryptographicAlgorithmRSA, CryptographicLength: 72,
+						KeyValue: &kmip.KeyValue{Plain: &kmip.PlainKeyValue{KeyMaterial: kmip.KeyMaterial{TransparentRSAPublicKey: &kmip.TransparentRSAPublicKey{
+							Modulus: *literalBig("80a1b2c3d4e5f60718"), PublicExponent: *big.NewInt(65537)}}}}}}}},
+			kmip.ResponseBatchItem{Operation: kmip.OperationGet, ResultStatus: kmip.ResultStatusSuccess,
+				ResponsePayload: &payloads.GetResponsePayload{ObjectType: kmip.ObjectTypePrivateKey, UniqueIdentifier: "id-4",
+					Object: &kmip.PrivateKey{KeyBlock: kmip.KeyBlock{KeyFormatType: kmip.KeyFormatTypeTransparentRSAPrivateKey, CryptographicAlgorithm: kmip.CryptographicAlgorithmRSA, CryptographicLength: 72,
+						KeyValue: &kmip.KeyValue{Plain: &kmip.PlainKeyValue{KeyMaterial: kmip.KeyMaterial{TransparentRSAPrivateKey: &kmip.TransparentRSAPrivateKey{
+							Modulus: *literalBig("80a1b2c3d4e5f60718"), PrivateExponent: literalBig("0102030405060708090a0b0c0d0e0f1011"), PublicExponent: big.NewInt(3),
+							P: literalBig("ff00000000000001"), Q: new(big.Int).Neg(literalBig("7fffffffffffffffff"))}}}}}}}}),
+		req(v(1, 4), &payloads.RegisterRequestPayload{ObjectType: kmip.ObjectTypePrivateKey,
+			Object: &kmip.PrivateKey{KeyBlock: kmip.KeyBlock{KeyFormatType: kmip.KeyFormatTypeTransparentECPrivateKey, CryptographicAlgorithm: kmip.CryptographicAlgorithmECDSA, CryptographicLength: 256,
+				KeyValue: &kmip.KeyValue{Plain: &kmip.PlainKeyValue{KeyMaterial: kmip.KeyMaterial{TransparentECPrivateKey: &kmip.TransparentECPrivateKey{
+					RecommendedCurve: kmip.RecommendedCurveP_256, D: *literalBig("00c0ffee00c0ffee00c0ffee00c0ffee00c0ffee00c0ffee00c0ffee00c0ff")}}}}}}}),
 	}
+}
+
+func literalBig(h string) *big.Int {
+	b, ok := new(big.Int).SetString(h, 16)
+	if !ok {
+		panic("literalBig: " + h)
+	}
+	return b
 }
 
 type literalOp struct {
